@@ -590,3 +590,43 @@ package val
 //@   property C16
 //@   trusted copies |buf| into the builder's buffer (its size bookkeeping is C15's writeRaw)
 //@   modifies *tb
+
+// ---- keyless tables are multisets: the cardinality cell (C27)
+
+//@ extern (github.com/dolthub/dolt/go/store/pool.BuffPool).Get as verif_x_pool_Get
+//@   modifies nothing
+//@   ensures len(buf) == int(size)
+
+//@ extern github.com/zeebo/xxh3.Hash128 as verif_x_xxh3_Hash128
+//@   modifies nothing
+//@   ghost_set verif_ghost.kLo = h.Lo
+//@   ghost_set verif_ghost.kHi = h.Hi
+
+// the cardinality is the little-endian uint64 in the first 8 bytes of the value tuple
+//@ func ReadKeylessCardinality
+//@   property C27
+//@   nopanic
+//@   requires len(value) >= 8
+//@   ensures  result == verif_le64(value[0:8])
+//@   modifies nothing
+
+// ModifyKeylessCardinality: a fresh copy whose count is the old count plus delta (two's complement) and whose row
+// bytes are unchanged; the tuple it was given (which may be shared with an already-written node) is not touched
+//@ func ModifyKeylessCardinality
+//@   property C27
+//@   nopanic
+//@   requires len(value) >= 8 && pool != nil
+//@   ensures  len(updated) == len(value)
+//@   ensures  after == uint64(int64(verif_le64(value[0:8])) + delta) && verif_le64(updated[0:8]) == after
+//@   ensures  forall k in 8..len(value): updated[k] == value[k]
+//@   ensures  forall k in 0..len(value): value[k] == old(value[k])
+
+// HashTupleFromValue: the row id is the 128-bit hash of the value WITHOUT its cardinality cell, followed by the
+// one-field tuple suffix: two values that differ only in their count have the same id
+//@ func HashTupleFromValue
+//@   property C27
+//@   requires pool != nil && verif_wf_tuple(value)
+//@   at call Hash128: assert verif_sameslice(arg0:[]byte, value[8:])
+//@   ensures  len(key) == 18 && key[16] == 1 && key[17] == 0
+//@   ensures  verif_le64(key[0:8]) == verif_ghost.kLo && verif_le64(key[8:16]) == verif_ghost.kHi
+//@   also_modifies verif_ghost.kLo, verif_ghost.kHi
